@@ -1,9 +1,13 @@
 import PV.Driver.HT
 import PV.Driver.SB
 import PV.Driver.Tree
+import PV.Driver.Atomics
+import PV.Driver.Locks
 def main (args : List String) : IO UInt32 := do
   match args with
   | ["ht"] => PV.Driver.HT.run; return 0
   | ["sb"] => PV.Driver.SB.run; return 0
   | ["tree"] => PV.Driver.Tree.run; return 0
+  | ["atomics"] => PV.Driver.Atomics.run; return 0
+  | ["locks"] => PV.Driver.Locks.run; return 0
   | _ => IO.eprintln "usage: pvdriver <family>  (ops on stdin)"; return 2
